@@ -1316,6 +1316,16 @@ class Extractor:
                 return True
         return False
 
+    def _iter_source(self, e, env):
+        """normal form of what a loop ranges over; a local helper that returns an iterator (`self.nodes_in(ns)` =
+        `self.nodes.iter().filter(..)`) is read as the chain it returns"""
+        it = self.NF.nf(e, env)
+        if CANON and isinstance(it, tuple) and it[0] == "call" and isinstance(it[1], str) and not it[1].startswith("iter::"):
+            ex = self._ce().expand(it)
+            if ex != it and isinstance(ex, tuple) and (ex[0] == "field" or (ex[0] == "call" and str(ex[1]).startswith("iter::"))):
+                return ex
+        return it
+
     def _visit(self, fn, e, env, ctx, out, how):
         """how: how the value of `e` is consumed: 'try' | 'tail' | 'stmt' | 'unwrap' | 'ret'."""
         e = H.strip(e)
@@ -1334,6 +1344,11 @@ class Extractor:
             while v[0] == "call" and str(v[1]).rsplit("::", 1)[-1] in ("as_bytes", "as_str", "as_ref") and len(v[2]) == 1:
                 v = v[2][0]
             a0 = H.strip(e["args"][0])
+            if v[0] == "lit" and isinstance(v[1], (list, tuple)) and all(isinstance(b_, int) and 0 <= b_ < 256 for b_ in v[1]):
+                try:
+                    v = ("lit", bytes(v[1]).decode("utf-8"))     # a byte-string literal: `write_all(b"}\n")`
+                except UnicodeDecodeError:
+                    pass
             parts = (("lit", v[1]),) if v[0] == "lit" and isinstance(v[1], str) else (("hole", v, "display", "&str"),)
             for pp, extra in (canon_parts(parts, self._ce()) if CANON else [(parts, ())]):
                 out.append(Emit(fn, e, None, pp, ctx + extra, how, len(out), e["recv"]))
@@ -1353,6 +1368,8 @@ class Extractor:
             else:
                 out.append(Emit(fn, e, fa, nf[1], ctx, how, len(out), e["recv"]))
             return
+        if k == "MethodCall" and e["name"] in ("map_err",) and self._writes(e["recv"]) and not any(self._writes(a_) for a_ in e["args"]):
+            return self._visit(fn, e["recv"], env, ctx, out, how)   # the error is converted, the result is consumed as before
         if k == "MethodCall" and e["name"] in ("unwrap", "expect") and self._writes(e["recv"]):
             return self._visit(fn, e["recv"], env, ctx, out, "unwrap")
         if k == "MethodCall" and e["name"] in ("ok", "is_ok", "is_err", "unwrap_or_default", "unwrap_or") and self._writes(e["recv"]):
@@ -1418,7 +1435,7 @@ class Extractor:
                 self._visit(fn, a["body"], env_a, ctx + alts, out, how)
             return
         if k == "For":
-            it = self.NF.nf(e["iter"], env)
+            it = self._iter_source(e["iter"], env)
             if it[0] == "tuple":
                 # a loop over an array literal is the sequence of its bodies, one per element: no repetition in the grammar
                 for item in it[1]:
@@ -1432,7 +1449,7 @@ class Extractor:
             self._visit(fn, e["body"], env_b, ctx + (("star", src),) + tuple(("alt", c, b) for c, b in conds), out, "stmt")
             return
         if k == "MethodCall" and e["name"] in ("for_each", "try_for_each") and H.strip(e["args"][0]).get("k") == "Closure":
-            it = self.NF.nf(e["recv"], env)
+            it = self._iter_source(e["recv"], env)
             src, val, conds = iter_view(it)
             clo = H.strip(e["args"][0])
             env_b = env.child()
